@@ -83,6 +83,9 @@ type Case struct {
 	// getoptions.Writer fails: 1 = every Write returns an error, 2 = short writes (one byte, no error … then an
 	// error).  What Parse / Dispatch return must not depend on it; texts written are not compared then.
 	BadWriter int `json:"badwriter,omitempty"`
+	// Dispatch is handed a context that is already over (1 = cancelled, 2 = deadline passed): which function runs,
+	// with which arguments, and what is returned must not depend on it
+	DeadCtx int `json:"deadctx,omitempty"`
 	// SetValue(name, values...) calls made on the object of handle H after a successful Parse, before the
 	// option values are read (and before Dispatch)
 	SetVals []SetVal `json:"setvals,omitempty"`
